@@ -312,3 +312,107 @@ theorem stage_is_spec (t : MT σ) (b : σ) (i : Nat) (hl : Lawful t) (ho : t.onc
           simp
 
 end Genshi.Match
+
+namespace Genshi.Match
+open Genshi
+variable {σ : Type}
+
+/-! ### select() on trees -/
+
+/-- does the single step of the select path accept this child? -/
+def Sel.keeps (s : Sel) : Node → Bool
+  | .leaf e => s.nodeTest e
+  | .elem t a _ => s.nodeTest (.start t a)
+
+/-- below the depth the step looks at, nothing is selected -/
+theorem selM_skip (s : Sel) : ∀ (mid : List Event) (j j' d : Nat) (rest : List Event),
+    s.depth < d → lvl j mid = some j' → selM s (d + j) 0 (mid ++ rest) = selM s (d + j') 0 rest := by
+  intro mid
+  induction mid with
+  | nil => intro j j' d rest _ h; simp [lvl] at h; subst h; rfl
+  | cons e es ih =>
+    intro j j' d rest hd h
+    simp only [lvl] at h
+    have hne : ¬ (d + j = s.depth ∧ s.nodeTest e = true) := by omega
+    by_cases hs : isStart e = true
+    · simp only [hs, ↓reduceIte] at h
+      simp only [List.cons_append, selM, hs, ↓reduceIte]
+      rw [if_neg hne, show d + j + 1 = d + (j + 1) by omega]
+      exact ih (j + 1) j' d rest hd h
+    · simp only [hs, Bool.false_eq_true, ↓reduceIte] at h
+      by_cases he : isEnd e = true
+      · simp only [he, ↓reduceIte] at h
+        cases j with
+        | zero => simp at h
+        | succ j =>
+          simp only at h
+          simp only [List.cons_append, selM, hs, he, Bool.false_eq_true, ↓reduceIte]
+          rw [show d + (j + 1) - 1 = d + j by omega]
+          exact ih j j' d rest hd h
+      · simp only [he, Bool.false_eq_true, ↓reduceIte] at h
+        simp only [List.cons_append, selM, hs, he, Bool.false_eq_true, ↓reduceIte]
+        rw [if_neg hne]
+        exact ih j j' d rest hd h
+
+theorem selM_children (s : Sel) (hs1 : s.depth = 1) : ∀ (kids : List Node) (rest : List Event), okList kids = true →
+    selM s 1 0 (flattenList kids ++ rest) = flattenList (kids.filter s.keeps) ++ selM s 1 0 rest := by
+  intro kids
+  induction kids with
+  | nil => intro rest _; simp [flattenList]
+  | cons k ks ih =>
+    intro rest hok
+    simp only [okList, Bool.and_eq_true] at hok
+    obtain ⟨hk, hks⟩ := hok
+    cases k with
+    | leaf e =>
+      have hse : e.isStartEnd = false := by simpa [Node.ok] using hk
+      have h1 : isStart e = false := by cases e <;> simp_all [Event.isStartEnd, isStart]
+      have h2 : isEnd e = false := by cases e <;> simp_all [Event.isStartEnd, isEnd]
+      simp only [flattenList, Node.flatten, List.cons_append, List.nil_append, selM, h1, h2, Bool.false_eq_true, ↓reduceIte,
+        List.filter_cons, Sel.keeps]
+      by_cases hn : s.nodeTest e = true
+      · simp [hn, hs1, ih rest hks, flattenList, Node.flatten]
+      · simp [hn, hs1, ih rest hks]
+    | elem tg at_ gk =>
+      have hgk : okList gk = true := by simpa [Node.ok] using hk
+      have hcl := lvl_flattenList gk 0 [] hgk
+      simp only [List.append_nil, lvl] at hcl
+      simp only [flattenList, Node.flatten, List.cons_append, List.append_assoc, selM, isStart, ↓reduceIte,
+        List.filter_cons, Sel.keeps]
+      by_cases hn : s.nodeTest (Event.start tg at_) = true
+      · rw [if_pos ⟨hs1.symm, hn⟩]
+        have := selM_copy s (flattenList gk) 0 0 2 0 (Event.end_ tg :: (flattenList ks ++ rest)) hcl
+        simp only [Nat.add_zero] at this
+        simp only [hn, ↓reduceIte, flattenList, Node.flatten, List.cons_append, List.append_assoc, List.nil_append,
+          Nat.reduceAdd]
+        rw [this]
+        simp only [selM, isStart, isEnd, Bool.false_eq_true, ↓reduceIte, Nat.add_one_sub_one, Nat.reduceSub]
+        rw [ih rest hks]
+      · rw [if_neg (by intro h; exact hn h.2)]
+        have := selM_skip s (flattenList gk) 0 0 2 (Event.end_ tg :: (flattenList ks ++ rest)) (by omega) hcl
+        simp only [Nat.add_zero] at this
+        simp only [hn, Bool.false_eq_true, ↓reduceIte, List.nil_append, Nat.reduceAdd]
+        rw [this]
+        simp only [selM, isStart, isEnd, Bool.false_eq_true, ↓reduceIte, Nat.add_one_sub_one, Nat.reduceSub]
+        rw [ih rest hks]
+
+/-- **select() on a tree.**  On the content of a matched element `<tg …>kids</tg>`:
+    `select('.')` is the element, and each of the child paths (`node()`, `*`, `text()`, `*|text()`,
+    `name`) is the flattening of exactly the children its node test accepts, in document order. -/
+theorem select_on_tree (s : Sel) (tg : QName) (at_ : AttrList) (kids : List Node) (hk : okList kids = true) :
+    select s (Event.start tg at_ :: flattenList kids ++ [Event.end_ tg]) =
+      if s.depth = 0 then Event.start tg at_ :: flattenList kids ++ [Event.end_ tg]
+      else flattenList (kids.filter s.keeps) := by
+  by_cases h0 : s.depth = 0
+  · simp only [h0, ↓reduceIte]
+    have : s = Sel.self := by cases s <;> simp_all [Sel.depth]
+    subst this
+    exact select_self rfl rfl (closed_flattenList kids hk)
+  · simp only [h0, ↓reduceIte]
+    have h1 : s.depth = 1 := by cases s <;> simp_all [Sel.depth]
+    have hne : ¬ (0 = s.depth ∧ s.nodeTest (Event.start tg at_) = true) := by omega
+    simp only [select, List.cons_append, selM, isStart, ↓reduceIte]
+    rw [if_neg hne, selM_children s h1 kids [Event.end_ tg] hk]
+    simp [selM, isStart, isEnd]
+
+end Genshi.Match
